@@ -68,17 +68,16 @@ theorem constraints_of_every_reachable_pool (U : Bytes → Tx) (cfg : Config) (o
 
 /-! ### tie by translation: the source's own leaf logic (regenerated into SV/Generated/Funcs.lean on every run) IS the model's -/
 theorem source_loop_exits_are_the_models (gasLimit gasReq acc len maxNum interval : Nat) (since maxDur : Int) :
-    Gen.selectionStops gasLimit gasReq acc len maxNum interval since maxDur =
+    Gen.selectionStops (gasLimit := gasLimit) (gasRequested := gasReq) (accumulatedGas := acc) (len_selectedTransactions := len) (maxNum := maxNum) (selectionLoopDurationCheckInterval := interval) (time_Since_selectionLoopStartTime := since) (selectionLoopMaximumDuration := maxDur) =
       [gasExceeded Variant.current acc gasLimit gasReq, decide (len ≥ maxNum),
        (decide (len % interval = 0) && decide (since > maxDur))] :=
   GenProofs.selectionStops_eq gasLimit gasReq acc len maxNum interval since maxDur
 
 theorem source_balance_test_is_the_models (consumed fee balance : Nat) (d1 d2 : Int) :
-    decide (consumed + fee > balance) = Gen.feeExceedsBalance fee false d1 d2 consumed balance :=
+    decide (consumed + fee > balance) = Gen.feeExceedsBalance (tx_Fee := fee) (fee_nil := false) (tx_FeePayer := d1) (sessionWrapper_getAccountRecord_feePayer := d2) (feePayerRecord_consumedBalance := consumed) (feePayerRecord_initialBalance := balance) :=
   GenProofs.feeExceedsBalance_eq consumed fee balance d1 d2
 theorem source_balance_test_reads (_ : Unit) :
-    Gen.feeExceedsBalance_leaves = ["tx.Fee : Int", "fee == nil : Bool", "tx.FeePayer : Int", "sessionWrapper.getAccountRecord(feePayer) : Int",
-      "feePayerRecord.consumedBalance : Int", "feePayerRecord.initialBalance : Int"] := GenProofs.feeExceedsBalance_leaves
+    Gen.feeExceedsBalance_leaves = ["fee == nil : Bool", "feePayerRecord.consumedBalance : Int", "feePayerRecord.initialBalance : Int", "sessionWrapper.getAccountRecord(feePayer) : Int", "tx.Fee : Int", "tx.FeePayer : Int"] := GenProofs.feeExceedsBalance_leaves
 
 /-- over the memoising session wrapper and ANY session oracle: the balance FIRST reported for the fee payer covers this fee
     on top of everything earlier transactions of the result committed to that account -/
